@@ -204,7 +204,39 @@ def _time_course_worker(
     except ZeroDivisionError:
         res = Result(Exception())
 
-    return res.default(lambda: Simulation.default(model=model, time_points=time_points))
+    return res.default(
+        lambda: Simulation.default(
+            model=model, time_points=_result_grid(time_points=time_points)
+        )
+    )
+
+
+def _result_grid(
+    *,
+    time_points: Array | None = None,
+    protocol: pd.DataFrame | None = None,
+    time_points_per_step: int | None = None,
+) -> Array:
+    """Time points a successful simulation returns, for the placeholder of a failed one.
+
+    A simulation starts at t=0 whether it was requested or not, a protocol adds the
+    ends of its steps and either a grid per step or the requested points in its range.
+    """
+    grid = [np.array([0.0])]
+    if protocol is not None:
+        ends = cast(pd.TimedeltaIndex, protocol.index).total_seconds().to_numpy()
+        grid.append(ends)
+        if time_points_per_step is not None:
+            grid.extend(
+                np.linspace(start, end, time_points_per_step + 1)
+                for start, end in zip([0.0, *ends[:-1]], ends, strict=True)
+            )
+        if time_points is not None:
+            time_points = np.asarray(time_points, dtype=float)
+            grid.append(time_points[time_points <= ends[-1]])
+    elif time_points is not None:
+        grid.append(np.asarray(time_points, dtype=float))
+    return np.unique(np.concatenate(grid))
 
 
 def _protocol_worker(
@@ -240,10 +272,8 @@ def _protocol_worker(
     except ZeroDivisionError:
         res = Result(Exception())
 
-    time_points = np.linspace(
-        0,
-        protocol.index[-1].total_seconds(),
-        len(protocol) * time_points_per_step,
+    time_points = _result_grid(
+        protocol=protocol, time_points_per_step=time_points_per_step
     )
     return res.default(lambda: Simulation.default(model=model, time_points=time_points))
 
@@ -281,7 +311,12 @@ def _protocol_time_course_worker(
     except ZeroDivisionError:
         res = Result(Exception())
 
-    return res.default(lambda: Simulation.default(model=model, time_points=time_points))
+    return res.default(
+        lambda: Simulation.default(
+            model=model,
+            time_points=_result_grid(protocol=protocol, time_points=time_points),
+        )
+    )
 
 
 @dataclass(kw_only=True, slots=True)
